@@ -6,6 +6,7 @@ mod lifesim;
 mod norm;
 mod pool;
 mod prng;
+mod recsim;
 mod sources;
 mod srcsim;
 mod tok;
@@ -24,6 +25,7 @@ fn engine_by_name(n: &str) -> Box<dyn Engine> {
         "srcsim" => Box::new(srcsim::SrcSim),
         "lifesim" => Box::new(lifesim::LifeSim),
         "histsim" => Box::new(histsim::HistSim),
+        "recsim" => Box::new(recsim::RecSim),
         "thrsim" => Box::new(thrsim::ThrSim),
         _ => {
             eprintln!("unknown engine {}", n);
@@ -241,7 +243,11 @@ fn parent(args: &Args) {
     let evidence_path = args.get("--evidence").map(PathBuf::from);
     let timeout = args.num("--timeout").unwrap_or(if tier == "thorough" { 7200 } else { 900 });
     // "c13" = every layer that decides C13 (histories, schedules; Miri in the thorough tier)
-    let names: Vec<&str> = if what == "c13" { vec!["histsim", "thrsim"] } else { vec![what.as_str()] };
+    let names: Vec<&str> = match what.as_str() {
+        "c13" => vec!["histsim", "thrsim"],
+        "c12" => vec!["lifesim", "recsim"],
+        _ => vec![what.as_str()],
+    };
     let mut runs = Vec::new();
     for n in &names {
         let e = engine_by_name(n);
@@ -367,12 +373,14 @@ fn coverage_for(engine: &dyn Engine, cj: &Value, planned: u64) -> Value {
     let counters = &cj["counters"];
     let evals = match engine.name() {
         "histsim" => counters["evaluations.history_parses"].as_u64().unwrap_or(cases),
+        "recsim" => counters["evaluations.comparisons_with_unrolling"].as_u64().unwrap_or(cases),
         "thrsim" => counters["evaluations.executions"].as_u64().unwrap_or(cases),
         _ => counters["evaluations.replica_runs"].as_u64().unwrap_or(cases),
     }
     .max(1);
     let simulated = match engine.name() {
         "lifesim" => "thread stack size (resource limit), lifecycle history, nesting depth; crash containment by process boundary",
+        "recsim" => "how the self-reference is realised (recursive() / declare-define / expanded k times without Recursive), the handle lifecycle (value, clone after dropping the original, re-boxed clone, second use) and, in 1/8 of the cases, the thread stack size",
         "histsim" => "the operation history (which handle, which wrapper, which input, clone/drop/move order) and the aborted-parse fault (panic injected at the k-th user callback); sources behind Stream/IoInput subjects are SimIter/SimReader",
         "thrsim" => "the thread scheduler (real OS threads released one at a time by a baton; the recording scheduler decides who runs next at every user callback and every source call), the sources (SimIter/SimReader), the aborted-parse fault",
         _ => "Read+Seek device (SimReader), pull iterators (SimIter, SimCloneIter); every decision from the case PRNG / the recorded trace",
@@ -462,6 +470,7 @@ fn evidence(property: &str, tier: &str, seed: u64, runs: &[EngineRun], miri: Opt
 fn rule_text(engine: &str) -> String {
     match engine {
         "srcsim" => "case = seeded (grammar AST, 1-3 token strings); each string is parsed (parse and check) through every applicable input kind fed by a simulated source whose per-call behaviour (chunk sizes, EINTR, cut points, size_hint) is drawn from the case PRNG; evaluations = replica runs compared with the &[T] reference. distinct_nontrivial = distinct (case digest, kind, policy) where the reference consumed >= 2 tokens AND the replica's source actually saw a backward reposition / short read / EINTR (reader) or served a rewind from its cache / by cloning (iterators)".into(),
+        "recsim" => "case = a generated grammar containing a recursive definition with guarded self-references (the C01/C02/C08 node set inside and around it, no memoization) + 1-3 inputs of <= 40 tokens + a handle lifecycle (value | clone, drop original | re-box a clone, drop the others | use twice); the grammar is built three ways: recursive(), Recursive::declare()+define(), and with the self-reference expanded (input length + 2) times using plain combinators and no Recursive; evaluations = comparisons of a recursive form with the unrolling (parse and check), full equality incl. every error. distinct_nontrivial = distinct (grammar, outcomes) with an input of >= 3 tokens".into(),
         "histsim" => "case = one grammar value (generated Boxed grammar for &[u8] / &str / Stream / IoInput, a statically typed zoo grammar, or a Cache) + a pool of 2-5 inputs + a seeded history of <= 13 operations (parse / check / *_with_state through value, &, &&, Box, Rc, Arc, boxed(), Either, stacks of those, Cache::get(); derive wrapper, clone, drop incl. the original, move; aborted parse = panic injected at the k-th user callback); evaluations = parses performed inside histories, each compared with a brand-new parser on the same input (references computed before and after the history, on pristine OS threads in 1/8 of the cases). distinct_nontrivial = distinct (subject, history, outcomes) digests where the history contains an accepted AND a rejected parse, or an aborted parse that fired followed by another parse, AND either a drop/move/derive or >= 3 parses".into(),
         "thrsim" => "case = one shared Sync parser (generated grammar as &dyn Parser+Send+Sync over &[u8] / Stream / IoInput, zoo grammar as Arc<dyn Parser+Send+Sync>, or a static Cache) + 2-8 client tasks with 1-4 operations each (1/3 of the cases abort some operations mid-parse) + 10 (quick) / 16 (thorough) schedules: sequential, round-robin, then seeded uniform-random / sticky-random / PCT-style; a context switch can happen at every user callback and every source call; evaluations = executions (one schedule of one case), each operation compared with a brand-new parser used alone. distinct_nontrivial = distinct (case, switch sequence) with >= 2 context switches that pre-empt a client in the middle of a parse".into(),
         "lifesim" => "case = seeded (template, recursive()/declare-define form, 0-12 neutral wrappers between two recursion guards, thread stack size 64 KiB..8 MiB, nesting depth: exhaustive 0..64 then log-uniform up to 10^4 / 10^5 / 10^6, input variant well-formed | truncated | wrong token | surplus token, lifecycle history of <= 11 ops: clone, drop (incl. the original handle), boxed, parse, check, define-again); evaluations = cases. distinct_nontrivial = distinct cases with (depth >= 1000 on a stack <= 256 KiB) OR (>= 3 lifecycle ops with a drop or define-again before the final parse)".into(),
@@ -477,6 +486,11 @@ fn assumptions(engine: &str) -> Vec<String> {
             "error descriptions (found/expected/messages) are not part of C10 and are only counted when they differ".into(),
             "empty spans of mapped (token,span) inputs are compared among mapped kinds only".into(),
             "seeded sampling: a clean run is evidence, not proof".into(),
+        ],
+        "recsim" => vec![
+            "the unrolling is built by the same builder from the same AST with Rec realised as k nested copies; level 0 always fails with a marker message and reaching it is a harness error (exit 2), never a violation".into(),
+            "memoized() is excluded inside these grammars: memo keys are node addresses, and the unrolling has k nodes where the recursion has one (memoization transparency is C11, not decided by this family)".into(),
+            "well-formedness by construction: every self-reference is reached only after a token was consumed".into(),
         ],
         "histsim" => vec![
             "reference = a brand-new parser built from the same grammar on the same input (same abort point): chumsky compared with chumsky, no independent semantics".into(),
@@ -615,6 +629,23 @@ fn replay_file(p: &Path, verbose: bool) -> i32 {
                 }
             }
         }
+        "recsim" => {
+            let rp: recsim::Replay = serde_json::from_value(v).unwrap_or_else(|e| harness_error(&format!("bad recsim replay: {}", e)));
+            match recsim::replay(&rp) {
+                Some((class, exp, obs)) => {
+                    if verbose {
+                        println!("reproduced property=C12 class={}\n grammar={}\n inputs={:?}\n lifecycle={:?}\n unrolled={}\n recursive={}", class, rp.grammar_sexpr, rp.inputs_shown, rp.spec.life, exp.brief(), obs.brief());
+                    }
+                    1
+                }
+                None => {
+                    if verbose {
+                        println!("not reproduced");
+                    }
+                    0
+                }
+            }
+        }
         "histsim" => {
             let rp: histsim::Replay = serde_json::from_value(v).unwrap_or_else(|e| harness_error(&format!("bad histsim replay: {}", e)));
             match histsim::replay(&rp) {
@@ -709,6 +740,11 @@ fn minimise_file(src: &Path, dst: &Path) {
         "srcsim" => {
             let rp: srcsim::Replay = serde_json::from_value(v).unwrap();
             let m = srcsim::minimise(&rp);
+            std::fs::write(dst, serde_json::to_vec_pretty(&m).unwrap()).unwrap();
+        }
+        "recsim" => {
+            let rp: recsim::Replay = serde_json::from_value(v).unwrap();
+            let m = recsim::minimise(&rp);
             std::fs::write(dst, serde_json::to_vec_pretty(&m).unwrap()).unwrap();
         }
         "histsim" => {
